@@ -471,6 +471,18 @@ class Env:
                     return None
         return (test.args[0].id, frozenset(tags))
 
+    def _truthy_guards(self, f: Func, test: ast.AST):
+        """Parameters that must be truthy for `test` to hold (Name / and-chains)."""
+        out = []
+        ts = test.values if isinstance(test, ast.BoolOp) and isinstance(test.op, ast.And) else [test]
+        for t in ts:
+            if isinstance(t, ast.Name) and t.id in f.param_names() and t.id != f.self_name:
+                out.append((t.id, frozenset({"TRUTHY"})))
+            g = self._isinstance_guard(f, t)
+            if g is not None:
+                out.append(g)
+        return out
+
     def _index_guards(self) -> None:
         for f in self.model.all_funcs():
             def rec(node, gs):
@@ -478,9 +490,9 @@ class Env:
                 if isinstance(node, (ast.FunctionDef, ast.AsyncFunctionDef, ast.ClassDef)) and node is not f.node:
                     return
                 if isinstance(node, ast.If):
-                    g = self._isinstance_guard(f, node.test)
+                    g = None
                     rec(node.test, gs)
-                    inner = gs | {g} if g is not None else gs
+                    inner = gs | frozenset(self._truthy_guards(f, node.test))
                     for st in node.body:
                         rec(st, inner)
                     for st in node.orelse:
@@ -502,12 +514,22 @@ class Env:
             a = self._actual_for(g, call, pname, bound=bound)
             if a is None:
                 d = g.param_default(pname)
-                if isinstance(d, ast.Constant):
-                    ta = frozenset(self._const_type(d))
-                else:
+                if not isinstance(d, ast.Constant):
                     continue
+                const = d
+                ta = frozenset(self._const_type(d))
             else:
+                const = a if isinstance(a, ast.Constant) else None
                 ta = self.types(f, a)
+            if "TRUTHY" in tags:
+                if const is not None and not const.value:
+                    return True
+                continue
+            if any(isinstance(t, tuple) and t and t[0] == "NOTIN" for t in tags):
+                vals = [t[1] for t in tags if isinstance(t, tuple) and t[0] == "NOTIN"][0]
+                if const is not None and any(const.value is v or (const.value == v and type(const.value) is type(v)) for v in vals):
+                    return True
+                continue
             if ta and ANY not in ta and not (ta & tags):
                 return True
         return False
